@@ -208,6 +208,12 @@ fn lv<T: Leaves>(x: &T) -> Vec<Leaf> { let mut v = Vec::new(); x.leaves(&mut v);
 /// required to panic).  The executor checks that no feasible path gets here.
 #[inline(never)] pub fn vmust_not_reach(id: &'static str) { log(Ev::Assert { id, ok: false }) }
 
+/// Rounding-error obligation (ERR mode): |got - want| <= ulps * machine-epsilon * |want|, with `got` computed in
+/// floating point (every operation rounds) and `want` exact.
+#[inline(never)] pub fn vrel_err<T: RelErr>(id: &'static str, got: T, want: T, ulps: f64) { log(Ev::Assert { id, ok: T::within(got, want, ulps) }) }
+pub trait RelErr: Copy { fn within(got: Self, want: Self, ulps: f64) -> bool; }
+impl RelErr for f64 { fn within(g: f64, w: f64, u: f64) -> bool { (g - w).abs() <= u * f64::EPSILON * w.abs() } }
+impl RelErr for f32 { fn within(g: f32, w: f32, u: f64) -> bool { ((g - w).abs() as f64) <= u * (f32::EPSILON as f64) * (w.abs() as f64) } }
 /// The code that follows is expected to panic on (some of) the inputs: panicking paths are not obligations.
 #[inline(never)] pub fn vmay_panic() { LOG.with(|l| { let _ = l; }) }
 
